@@ -309,6 +309,9 @@ def check(spec, ctx):
                                                f"step length; (neighbour, distance, expected) = {seen}")
         # overlap and force at the moment of acceptance
         excluded = {(mol_idx, n) for n in neighborhood(meta, node, 1)} | {(mol_idx, node)}
+        # the cut-off is twice the largest pair size of the system, whatever the box (computed here, not read
+        # from the engine's own attribute)
+        cut_off = 2.0 * max(v[0] for v in engine.interaction_matrix.values())
         total = np.zeros(3)
         my_type = engine.atypes[engine.nodes_to_gndx[(mol_idx, node)]]
         for key, pos in positioned.items():
@@ -316,7 +319,7 @@ def check(spec, ctx):
             r = float(np.linalg.norm(vec))
             if r < 0.1:
                 raise Violation("closer_than_floor", f"residue ({mol_idx},{node}) at {point} is {r:.4f} nm from residue {key}")
-            if r > engine.cut_off or key in excluded:
+            if r > cut_off or key in excluded:
                 continue
             sig, eps = engine.interaction_matrix[frozenset((my_type, engine.atypes[engine.nodes_to_gndx[key]]))]
             total += 24 * eps / r * (2 * (sig / r) ** 12 - (sig / r) ** 6) * vec / r
